@@ -368,6 +368,11 @@ ENV_PATCH2 = '''
             context.execute("SELECT 1")
         if _shape == "no_outer":
             context.run_migrations()
+        elif _shape == "two_calls":
+            # several run_migrations() calls inside ONE begin_transaction() block (two-phase / per-tenant loop)
+            with context.begin_transaction():
+                context.run_migrations()
+                context.run_migrations()
         else:
             with context.begin_transaction():
                 context.run_migrations()
@@ -428,7 +433,8 @@ def make_script_dir(scratch, hist, path, template="generic", patch_env=False, na
     return cfg
 
 
-def run_command(cfg, bodies, rev_index, cmd, target, engine_mode, fail, configure_kw=None, hook=False, shape="stock", sql=False):
+def run_command(cfg, bodies, rev_index, cmd, target, engine_mode, fail, configure_kw=None, hook=False, shape="stock", sql=False,
+                phases=None):
     """alembic.command.upgrade/downgrade through the shipped env.py (pysqlite default; with
     engine_mode == "recipe" the recipe is installed on the Engine class for the duration).
     configure_kw / hook: only with a patched env.py (see make_script_dir)."""
@@ -454,7 +460,23 @@ def run_command(cfg, bodies, rev_index, cmd, target, engine_mode, fail, configur
     logging.disable(logging.CRITICAL)  # the shipped env.py calls fileConfig(); keep the run quiet
     cwd = os.getcwd()
     try:
-        if cmd == "upgrade":
+        if phases:
+            # what command.upgrade/downgrade do (real EnvironmentContext + ScriptDirectory.run_env()), with a work function
+            # whose target depends on the call: the k-th run_migrations() call of env.py migrates to phases[k]
+            from alembic.runtime.environment import EnvironmentContext
+            from alembic.script import ScriptDirectory
+
+            script_dir = ScriptDirectory.from_config(cfg)
+            ncall = [0]
+
+            def fn(heads, mc):
+                tgt = phases[min(ncall[0], len(phases) - 1)]
+                ncall[0] += 1
+                return script_dir._upgrade_revs(tgt, heads) if cmd == "upgrade" else script_dir._downgrade_revs(tgt, heads)
+
+            with EnvironmentContext(cfg, script_dir, fn=fn, as_sql=False, starting_rev=None, destination_rev=phases[-1], tag=None):
+                script_dir.run_env()
+        elif cmd == "upgrade":
             command.upgrade(cfg, target, sql=sql)
         else:
             command.downgrade(cfg, target, sql=sql)
